@@ -133,9 +133,10 @@ class Check:
             "wall_s": round(wall, 2),
             "violations": len(new),
         }
-        os.makedirs(os.path.join(VERIF, "evidence"), exist_ok=True)
-        with open(os.path.join(VERIF, "evidence", "%s.json" % self.prop), "w") as fh:
-            json.dump(ev, fh, indent=1, default=str)
+        if os.environ.get("VERIF_NO_EVIDENCE") != "1":
+            os.makedirs(os.path.join(VERIF, "evidence"), exist_ok=True)
+            with open(os.path.join(VERIF, "evidence", "%s.json" % self.prop), "w") as fh:
+                json.dump(ev, fh, indent=1, default=str)
         print("%s: %d obligations, %d discharged, %d known findings, %d violations (%.1fs, tier %s)"
               % (self.prop, n, discharged, len(known_hit), len(new), wall, self.tier))
         return 1 if new else 0
